@@ -1,6 +1,7 @@
 package scen
 
 import (
+	"bytes"
 	"context"
 	"fmt"
 	"io"
@@ -51,7 +52,8 @@ func init() {
 		},
 		Body: func(x *vs.Exec, p explore.Params) {
 			seq := x.Data["seq"].(*atomic.Int64)
-			lc := newLive(x, liveOpts{proto: p["proto"], timeout: 3 * time.Second})
+			// the plugin writes to its stdout while the session runs (crash point "during stdio streaming")
+			lc := newLive(x, liveOpts{proto: p["proto"], timeout: 3 * time.Second, pStdout: bytes.NewReader(pattern(3, 3000)), syncOut: io.Discard})
 			x.Data["lc"] = lc
 			var ops []*opRec
 			x.Data["ops"] = &ops
@@ -84,6 +86,34 @@ func init() {
 			run("Dispense", p["proto"] == "netrpc", func() error { var err error; obj, err = cp.Dispense("p"); return err })
 			if obj != nil {
 				run("call", true, func() error { return lc.call(obj, false) })
+				if cc, ok := obj.(*grpc.ClientConn); ok {
+					// a bidirectional stream with two exchanges (crash point "inside a stream")
+					run("stream", true, func() error {
+						ctx, cancel := context.WithTimeout(context.Background(), 10*time.Second)
+						defer cancel()
+						st, err := grpctest.NewTestClient(cc).Stream(ctx)
+						if err != nil {
+							return err
+						}
+						for i := int32(1); i <= 2; i++ {
+							if err := st.Send(&grpctest.TestRequest{Input: i}); err != nil {
+								return err
+							}
+							r, err := st.Recv()
+							if err != nil {
+								return err
+							}
+							if r.Output != 2*i {
+								return fmt.Errorf("stream answered %d to %d", r.Output, i)
+							}
+						}
+						st.CloseSend()
+						if _, err := st.Recv(); err != io.EOF {
+							return fmt.Errorf("stream did not end cleanly: %v", err)
+						}
+						return nil
+					})
+				}
 				// a second host goroutine holds a long call open
 				d.goIn("host", "slowcall", func() {
 					o := &opRec{name: "slowcall", needPlugin: true, startSeq: seq.Add(1), start: x.Now()}
